@@ -46,6 +46,18 @@ impl Arena {
         }
     }
 
+    /// the data starts `k` bytes behind the start of the accessible pages (no guard page adjacent: placement
+    /// independence only); 0x55 around it
+    pub fn at_start_plus<'a>(&'a self, data: &[u8], k: usize) -> &'a [u8] {
+        unsafe {
+            let start = self.r2.add(PAGE);
+            core::ptr::write_bytes(start, 0x55, PAGES * PAGE);
+            let k = if data.len() + k <= PAGES * PAGE { k } else { 0 };
+            core::ptr::copy_nonoverlapping(data.as_ptr(), start.add(k), data.len());
+            core::slice::from_raw_parts(start.add(k), data.len())
+        }
+    }
+
     /// the data starts right behind the inaccessible page; 0x55 bytes behind it
     pub fn at_start<'a>(&'a self, data: &[u8]) -> &'a [u8] {
         unsafe {
@@ -59,6 +71,24 @@ impl Arena {
 
 thread_local! {
     static ARENA: RefCell<Option<Arena>> = RefCell::new(Arena::new());
+    /// observations that have to be the same on every placement but are not part of the canonical result line
+    /// (checksums over the decoded slices, validity verdicts)
+    static EXTRA: RefCell<String> = RefCell::new(String::new());
+}
+
+/// records a placement-sensitive observation of the operation that is running (compared between the placements)
+pub fn observe(s: &str) {
+    EXTRA.with(|e| {
+        let mut e = e.borrow_mut();
+        if e.len() < 4096 {
+            e.push_str(s);
+            e.push(';');
+        }
+    });
+}
+
+fn take_extra() -> String {
+    EXTRA.with(|e| std::mem::take(&mut *e.borrow_mut()))
 }
 
 /// runs `f` on both placements of `data`; the two results must be identical.
@@ -71,12 +101,22 @@ pub fn both_placements(data: &[u8], f: impl Fn(&[u8]) -> Option<String>) -> Opti
         match a.as_ref() {
             None => f(data),
             Some(arena) => {
+                take_extra();
                 let r1 = f(arena.at_end(data))?;
+                let x1 = take_extra();
                 let r2 = f(arena.at_start(data))?;
-                if r1 == r2 {
+                let x2 = take_extra();
+                // third placement: one byte further into the page (an odd address where the second was even)
+                let r3 = f(arena.at_start_plus(data, 1))?;
+                let x3 = take_extra();
+                if r1 == r2 && r1 == r3 && x1 == x2 && x1 == x3 {
                     Some(r1)
-                } else {
+                } else if r1 != r2 {
                     Some(format!("{}!placement-dependent[{}]", r1, r2))
+                } else if r1 != r3 {
+                    Some(format!("{}!placement-dependent[{}]", r1, r3))
+                } else {
+                    Some(format!("{}!placement-dependent[observed:{}|{}|{}]", r1, x1, x2, x3))
                 }
             }
         }
